@@ -55,7 +55,12 @@ def cases(draw, tier="quick"):
     if shape == "error":
         P["inject_error"] = draw(st.integers(0, 1))
     if shape == "unwelcome":
-        P["welcome_error"] = "go away"
+        if draw(st.booleans()):
+            P["welcome_error"] = "go away"
+        else:
+            # the server starts refusing clients later: only re-connections see the error welcome
+            P["welcome_error_late"] = [draw(st.integers(2, 4)), "go away"]
+            P["drops"] = max(P["drops"], 2)
     if shape == "third":
         P["third"] = draw(st.sampled_from(["before", "after"]))
         P["codemode"] = draw(st.sampled_from([["set", "set"], ["set", "input"]]))
